@@ -178,7 +178,7 @@ def _find_hanging_module(rustc, so, src, out_dir):
     return m.group(1) if m else None
 
 
-def engine_r_t(kw, n_inputs, chunks):
+def engine_r_t(kw, n_inputs, chunks, pool_stride=1):
     """Real host, T1/T3: generated + corpus + directed inputs through the shipped dylib."""
     exe, out, rustc, seed = kw["exe"], kw["out"], kw["rustc"], kw["seed"]
     d = os.path.join(out, "engine-r")
@@ -191,6 +191,7 @@ def engine_r_t(kw, n_inputs, chunks):
     def emit(c):
         cmd = [exe, "emit-crate", "--repo", kw["repo"], "--root", str(seed), "--from", "0",
                "--n", str(n_inputs), "--out", files[c], "--no-user-compile-error", "--with-pool",
+               "--pool-stride", str(pool_stride), "--pool-offset", str(seed % pool_stride),
                "--no-native", "--shard", f"{c}/{chunks}"]
         r = subprocess.run(cmd, env={"PATH": "/usr/bin:/bin"}, capture_output=True, text=True)
         if r.returncode != 0:
@@ -589,8 +590,9 @@ def run_extra(**kw):
                                                   "sessions and the first ordinary sessions, each in a cfg'd-out module")
             res["classes"] += classes
             res["evaluations"] += ev
-            info, classes, ev = engine_r_t(kw, n_inputs=0, chunks=max(16, kw["jobs"]))
-            res["engines"]["R-T"] = dict(info, what="corpus and directed seeds only (generated inputs in the thorough tier): "
+            info, classes, ev = engine_r_t(kw, n_inputs=0, chunks=max(16, kw["jobs"]), pool_stride=3)
+            res["engines"]["R-T"] = dict(info, what="corpus and one third of the directed seeds, rotating with the seed "
+                                                    "(all of them plus generated inputs in the thorough tier): "
                                                     "shipped dylib (guard off), real proc_macro bridge, real wrappers, stable "
                                                     "rustc --emit=metadata; verdict only on macro panics and message-less "
                                                     "compile_error!; nothing stubbed")
